@@ -265,7 +265,7 @@ def run(ctx):
         bits = 8
         if rng.chance(1, 3):
             bits = 12
-        if op in ("c2r", "r2c", "g2c") and rng.chance(1, 6):
+        if op in ("c2r", "r2c") and rng.chance(1, 6):
             bits = 16
         groups.append(gen_kernel_group(rng, op, bits))
     for i in range(ctx.n(110, 2500)):
